@@ -172,10 +172,16 @@ StrExprs(t) ==
           FnN("is_in", <<s, LitStr(p), LitStr(<<122, 122>>)>>),
           Case1D(Fn2("eq", s, LitStr(p)), LitStr(p), LitStr(<<110, 111>>)),
           FnN("coalesce", <<s, LitStr(p)>>),
+          \* map with a plain string key (one key, not a collection of characters) and with a tuple of strings
+          [k |-> "map", e |-> s, ks |-> <<<<LitStr(p)>>, <<LitStr(<<97>>), LitStr(<<98>>)>>>>, vs |-> <<Dash, LitStr(<<110, 111>>)>>, d |-> <<>>],
+          [k |-> "map", e |-> s, ks |-> <<<<LitStr(<<97, 98>>), LitStr(p)>>>>, vs |-> <<LitStr(p)>>, d |-> <<Dash>>],
           LitStr(p)>>))
     \o <<Fn1("str_upper", s), Fn1("str_lower", s), Fn1("str_strip", s), Fn3("str_slice", s, LitI(0), LitI(1)), Fn3("str_slice", s, LitI(1), LitI(5)),
          Fn3("str_slice", s, LitI(2), LitI(0)), Fn1("str_upper", Fn2("add", s, LitStr(<<97, 32>>))), Fn1("str_strip", Fn2("add", LitStr(<<32, 32>>), Fn2("add", s, LitStr(<<32>>))))>>
     \o <<Fn1("str_len", s), LitI(-5), LitB(FALSE), LitN, Fn2("eq", Col(ByName(t)["n"]), LitI(-1)), Fn2("add", Col(ByName(t)["n"]), LitI(-3))>>
+    \* the python literal None is a null operand (a comparison with it is null), not a request for IS NULL
+    \o <<Fn2("eq", s, LitN), Fn2("ne", s, LitN), Fn2("eq", LitN, s), Case1D(Fn2("ne", s, LitN), Dash, LitStr(<<110>>)),
+          Fn2("or", Fn2("eq", s, LitN), Fn2("eq", s, LitStr(<<97, 98>>))), FnN("is_in", <<s, LitN, LitStr(<<97, 98>>)>>), Fn2("fill_null", s, LitN)>>
 
 MovesStr(h, kn) ==
     IF Len(h) > 1 THEN <<>> ELSE MapS(StrExprs(h[1]), LAMBDA e : MMutate(1, <<KV("r", e)>>))
@@ -196,6 +202,9 @@ CastExprs(t) ==
       Cast(Cast(c("i"), "str"), "int"), Cast(Cast(c("f"), "str"), "float"), Cast(Cast(c("f"), "int"), "float"),
       Cast(Fn2("truediv", c("i"), LitI(4)), "int"), Cast(Fn1("neg", c("f")), "int"), Cast(Fn2("gt", c("i"), LitI(0)), "int"),
       Cast(LitN, "int"), Cast(LitN, "str"), Cast(LitI(7), "str"), Cast(LitI(-7), "float"),
+      \* an explicit cast is never a no-op because the operand would convert implicitly: generic Float target, null literal
+      CastG(c("i"), "float"), Cast(CastG(c("i"), "float"), "str"), Cast(CastG(LitI(7), "float"), "str"), Cast(Cast(c("i"), "float"), "str"),
+      Cast(Cast(LitN, "int"), "str"), Fn2("add", Cast(LitN, "int"), c("i")),
       Fn1("dt_year", c("d")), Fn1("dt_month", c("d")), Fn1("dt_day", c("d")), Fn1("dt_year", c("dt")), Fn1("dt_month", c("dt")), Fn1("dt_day", c("dt")),
       Fn1("dt_hour", c("dt")), Fn1("dt_minute", c("dt")), Fn1("dt_second", c("dt")), Fn1("dt_year", Cast(c("d"), "datetime")),
       \* constant operands (python literals)
